@@ -27,14 +27,6 @@ HARNESSES = [
                 for fb in (0, 1)]),
 ]
 
-# Not run: the unbounded front-end proof (append + get_new_block with loop
-# contracts, contracts/loops/C01_w4.tbl) does not finish (SAT > 25 min, > 7 GB).
-# C01.bp.append_safe is covered by C13's bp_append harness; kept for a later
-# attempt with a smaller state.
-_DISABLED = [
-    dict(name="bp_append", file="bp_append.c", label="proved", timeout=1800,
-         loops=["sqfs_block_processor_append", "get_new_block"], loop_tables=["C01_w4"],
-         fp={"submit": "stub_submit", "get_status": "stub_get_status"},
-         cases=[dict(id="cur%d_bs4096" % c, defines={"HAVE_CUR": c, "BS_LOG": 12}, tier="quick")
-                for c in (0, 1)]),
-]
+# The unbounded front-end proof (bp_append.c) that used to be disabled here did
+# not finish with get_new_block / enqueue_block in place; w14 made it modular:
+# see cases_extra_w14.py (harness bp_append, loop table C01_w14).
